@@ -97,6 +97,8 @@ class Scenario:
             w = rng.choice(["C", "S"])
             lim = rng.choice([1, 125, 126, 1000, 65535, 65536])
             (copts if w == "C" else sopts)["maxMessagePayloadSize"] = lim
+            if rng.random() < 0.4:
+                (copts if w == "C" else sopts)["maxFramePayloadSize"] = lim      # both limits, same value, one call
             o["limit"][w] = lim
             self.limit_who = w
         o["dlimit"] = {"C": 0, "S": 0}
@@ -116,8 +118,33 @@ class Scenario:
         del self.pair.log[:]
         self.trace.append(dict(ev="open", compress=o["compress"], limit=o["limit"], mask=o["mask"], dlimit=o["dlimit"]))
 
+    def compression_other(self, sopts, copts, ext):
+        """bzip2 / brotli with default parameters (generic offer -> accept -> response-accept through the extension map)"""
+        from autobahn.websocket.compress import PERMESSAGE_COMPRESSION_EXTENSION as X
+        cls = X[ext]
+
+        def accept(offers):
+            for of in offers:
+                if isinstance(of, cls["Offer"]):
+                    return cls["OfferAccept"](of)
+
+        def caccept(resp):
+            if isinstance(resp, cls["Response"]):
+                return cls["ResponseAccept"](resp)
+
+        sopts["perMessageCompressionAccept"] = accept
+        copts["perMessageCompressionOffers"] = [cls["Offer"]()]
+        copts["perMessageCompressionAccept"] = caccept
+        self.dlimit = {"C": 0, "S": 0}
+        return dict(ext=ext)
+
     def compression(self, sopts, copts):
         rng = self.rng
+        if self.profile == "c12" and rng.random() < 0.3:
+            from autobahn.websocket.compress import PERMESSAGE_COMPRESSION_EXTENSION as X
+            others = sorted(k for k in X if k != "permessage-deflate")
+            if others:
+                return self.compression_other(sopts, copts, rng.choice(others))
         wb_req = rng.choice([0, 9, 10, 12, 15])
         offer = PerMessageDeflateOffer(accept_no_context_takeover=rng.random() < 0.5, accept_max_window_bits=rng.random() < 0.7,
                                        request_no_context_takeover=rng.random() < 0.4, request_max_window_bits=wb_req)
@@ -307,7 +334,10 @@ class Scenario:
             buf = src.unread()
             if buf:
                 k = rng.choice(self.boundaries(buf)) if rng.random() < 0.7 else len(buf)
-                self.pair.deliver(to, k)
+                burst = None
+                if rng.random() < 0.3:
+                    burst = [rng.randint(1, max(1, k - 1)) for _ in range(rng.randint(1, 3))]     # back-to-back reads
+                self.pair.deliver(to, k, burst=burst)
         self.collect()
 
     def run(self):
@@ -328,7 +358,8 @@ class Scenario:
                 buf = src.unread()
                 if buf:
                     k = rng.choice(self.boundaries(buf)) if rng.random() < 0.5 else len(buf)
-                    moved += self.pair.deliver(to, k)
+                    burst = [rng.randint(1, max(1, k - 1)) for _ in range(2)] if rng.random() < 0.3 else None
+                    moved += self.pair.deliver(to, k, burst=burst)
             self.collect()
             if not moved and not fw.pump() and not self.pair.ct.unread() and not self.pair.st.unread():
                 break
